@@ -164,6 +164,97 @@ func CheckC09(c *Ctx) {
 	if len(es) == 0 {
 		c.ok()
 	}
+	c.packageState()
+}
+
+// packageState: the indicator and strategy packages keep no package-level variable through which
+// two instances could come to share an object: a variable whose type can hold a pointer (a
+// pointer, interface, map, channel, function, or a slice, array or struct containing one). A
+// constructor that copies a package-level template hands every instance the template's nested
+// objects; the instances then stop "holding configuration only" - reconfiguring one through an
+// exported field reconfigures all of them, concurrently with their Computes. Tables of numbers
+// and strings that nothing writes are exempt (read-only lookup tables).
+func (c *Ctx) packageState() {
+	run := c.Run
+	n := 0
+	for _, pk := range c.P.Pkgs {
+		rel := load.RelPkg(pk.PkgPath)
+		isInd := rel == "trend" || rel == "momentum" || rel == "volatility" || rel == "volume"
+		if !isInd && !strings.HasPrefix(rel, "strategy") {
+			continue
+		}
+		sc := pk.Types.Scope()
+		for _, name := range sc.Names() {
+			v, ok := sc.Lookup(name).(*types.Var)
+			if !ok || strings.HasSuffix(c.P.Fset.Position(v.Pos()).Filename, "_test.go") {
+				continue
+			}
+			n++
+			why := holdsPointer(v.Type(), 0)
+			if why != "" && readOnlyTable(v) {
+				why = ""
+			}
+			run.Oblige(why == "")
+			if why != "" {
+				c.violate("instance-freshness", rel+"."+name, "package variable", v.Pos(), fmt.Sprintf("package %s keeps the variable %s of type %s (%s): whatever a constructor or method takes from it is shared by every instance, so an instance no longer holds its own configuration only", rel, name, types.TypeString(v.Type(), types.RelativeTo(pk.Types)), why))
+			}
+		}
+	}
+	run.Count("package_variables_in_instance_packages", n)
+	// the expected count on this code base is zero: keep the classifier honest on built-in examples
+	okSample := holdsPointer(types.NewPointer(types.Typ[types.Int]), 0) != "" &&
+		holdsPointer(types.NewSlice(types.NewPointer(types.Typ[types.Int])), 0) != "" &&
+		holdsPointer(types.NewMap(types.Typ[types.String], types.Typ[types.Int]), 0) != "" &&
+		holdsPointer(types.NewArray(types.Typ[types.Float64], 4), 0) == "" &&
+		holdsPointer(types.NewStruct([]*types.Var{types.NewField(0, nil, "a", types.Typ[types.Int], false), types.NewField(0, nil, "p", types.NewPointer(types.Typ[types.Int]), false)}, nil), 0) != "" &&
+		holdsPointer(types.Typ[types.String], 0) == ""
+	run.Oblige(okSample)
+	if !okSample {
+		run.Break("the package-state rule does not classify its built-in examples as expected")
+	}
+}
+
+// holdsPointer: "" when no value of type t can hold a reference to a shared object; otherwise
+// what in t does.
+func holdsPointer(t types.Type, depth int) string {
+	if depth > 6 {
+		return "a deeply nested type"
+	}
+	switch u := t.Underlying().(type) {
+	case *types.Basic:
+		if u.Kind() == types.UnsafePointer {
+			return "an unsafe pointer"
+		}
+		return ""
+	case *types.Pointer:
+		return "a pointer"
+	case *types.Interface:
+		return "an interface value"
+	case *types.Map:
+		return "a map"
+	case *types.Chan:
+		return "a channel"
+	case *types.Signature:
+		return "a function value"
+	case *types.Slice:
+		if w := holdsPointer(u.Elem(), depth+1); w != "" {
+			return "a slice of elements holding " + w
+		}
+		return "a slice (a shared backing array)"
+	case *types.Array:
+		if w := holdsPointer(u.Elem(), depth+1); w != "" {
+			return "an array of elements holding " + w
+		}
+		return ""
+	case *types.Struct:
+		for i := 0; i < u.NumFields(); i++ {
+			if w := holdsPointer(u.Field(i).Type(), depth+1); w != "" {
+				return "field " + u.Field(i).Name() + " holds " + w
+			}
+		}
+		return ""
+	}
+	return "a value of kind " + t.String()
 }
 
 // closureCells: a local variable assigned inside a function literal that is passed to a
